@@ -5,7 +5,7 @@ NS = ['My', 'Hal', 'Sub', 'A', 'B', 'Proj', 'MyLib', 'Su']     # some contain ot
 ITF = ['IApi', 'IHal', 'ICtl', 'IToaster', 'IApi2', 'Api', 'IHalt']
 EXT = ['Str', 'Int', 'T', 'MilliSeconds', 'PIncident', 'Integer', 'St']
 EXTV = ['std::string', 'int', 'size_t', '::Sub::MyLongNamedType', '::My::Data<int>', 'std::shared_ptr<::Incident>', 'const char*', '::Incident*']
-PORTS = ['api', 'ctl', 'hal', 'hal2', 'cord', 'led', 'p1', 'x_y', 'Api2', 'q', 'dataIn', 'userApi', 'p1Out', 'UPPER']
+PORTS = ['api', 'ctl', 'hal', 'hal2', 'cord', 'led', 'p1', 'x_y', 'Api2', 'q', 'dataIn', 'userApi', 'p1Out', 'UPPER', 'pass', 'from']
 EVIN = ['Claim', 'Release', 'Drop', 'Use', 'Initialize', 'Go', 'Set', 'Cancel', 'TryClaim', 'ReleaseAll', 'UseUp']   # some contain others
 EVOUT = ['Done', 'Fail', 'Went', 'Ok', 'Ready', 'DoneAll', 'Okay']
 FORMALS = ['msg', 'n', 'a', 'b', 'value', 'incident', 'waitMs', 'val', 'n2']
@@ -193,6 +193,12 @@ def gen_case(rng, rich=True):
 
 # ---------------------------------------------------------------- single faults
 
+def wrap_ns(path, decl):
+    for n in reversed(path):
+        decl = ['ns', [n], [decl]]
+    return decl
+
+
 def find_decl(tree, pred):
     for d in tree:
         if pred(d):
@@ -231,6 +237,9 @@ def faults(rng, case):
         return kinds[rng.choice(sorted(k for k in kinds if k not in exclude))]
 
     variant('encapsulee-unknown', lambda c: c['cfg'].__setitem__('enc', c['cfg']['enc'][:-1] + ['Nope']))
+    # a name that is only a TAIL of the encapsulee's fully qualified name does not name it (lookup is from the global scope)
+    variant('encapsulee-tail-of-fqn', lambda c: c['cfg'].__setitem__('enc', c['cfg']['enc'][1:]) if len(c['cfg']['enc']) >= 2 else False)
+    variant('encapsulee-last-identifier-only', lambda c: c['cfg'].__setitem__('enc', c['cfg']['enc'][-1:]) if len(c['cfg']['enc']) >= 3 else False)
     variant('encapsulee-is-interface', lambda c: c['cfg'].__setitem__('enc', list(info['itfs'][0]['fqn'])))
     for kind, decl in (('foreign', ['foreign', ['NotAComp'], [['api', list(info['itfs'][0]['fqn']), 'provides', False]]]), ('enum', ['enum', ['NotAComp'], ['A']]),
                        ('extern', ['extern', ['NotAComp'], 'int']), ('subint', ['subint', ['NotAComp'], 0, 3])):
@@ -259,6 +268,23 @@ def faults(rng, case):
                 return False
             place(c['file'], [], other_kind(tname, exclude=('itf',)))
         variant('port-type-ambiguous-other-kind', ambiguous_other_kind)
+    def declared_twice(c, kind):
+        # the very same declaration (same namespace, same name, same body) once more, in a re-opened namespace block: two
+        # declarations on the chain, ambiguous like any other two
+        hit = []
+
+        def walk(ds, path):
+            for d in ds:
+                if d[0] == kind and not hit and (kind != 'itf' or any(p[4] == path + d[1] for p in info['ports'])):
+                    hit.append((path, copy.deepcopy(d)))
+                elif d[0] == 'ns':
+                    walk(d[2], path + d[1])
+        walk(c['file'], [])
+        if not hit:
+            return False
+        c['file'].append(wrap_ns(hit[0][0], hit[0][1]))
+    variant('interface-declared-twice-identically', lambda c: declared_twice(c, 'itf'))
+    variant('extern-declared-twice-identically', lambda c: declared_twice(c, 'extern'))
     variant('select-unknown-port', lambda c: c['cfg']['ports'].__setitem__('r', [['s', ['ghost']], ['w', 'remaining']]))
     variant('select-both', lambda c: c['cfg']['ports'].__setitem__('r', [['s', ['hal']], ['s', ['hal']]]))
     variant('select-all-plus-set', lambda c: c['cfg']['ports'].__setitem__('r', [['w', 'all'], ['s', ['hal']]]))
